@@ -49,6 +49,24 @@ Section G.
   Definition nth_name (l : list string) (i : Z) : str :=
     match nth_error l (Z.to_nat i) with Some s => ss s | None => [] end.
 
+  (* the operand loop: k operands, each of a level drawn below n *)
+  Fixpoint children (h : nat -> list Z -> (tree * value) * list Z) (n : nat) (k : nat) (s : list Z)
+    : list (tree * value) * list Z :=
+    match k with
+    | O => ([], s)
+    | S k' =>
+      let (kk, s) := draw s (Z.of_nat n) in
+      let '(tv, s) := h (Z.to_nat kk) s in
+      let '(rest, s) := children h n k' s in
+      (tv :: rest, s)
+    end.
+
+  Definition pick_op (isb : bool) (r : Z) (vals : list value) : str :=
+    if isb then nth_name ["and"; "or"; "eq"]%string (r mod 3)
+    else if existsb (fun v => match v with VInt 0 => true | _ => false end) (tl vals)
+         then nth_name ["+"; "-"; "*"]%string (r mod 3)
+         else nth_name ["+"; "-"; "*"; "/"; "%"]%string (r mod 5).
+
   Fixpoint helper (fuel : nat) (isb : bool) (n : nat) (s : list Z) : (tree * value) * list Z :=
     match fuel with
     | O => ((TConst VNil, VNil), s)
@@ -72,23 +90,10 @@ Section G.
         else
           let (l0, s) := draw s 3 in
           let l := Z.to_nat (l0 + 2) in
-          let '(children, s) :=
-            (fix go (k : nat) (s : list Z) : list (tree * value) * list Z :=
-               match k with
-               | O => ([], s)
-               | S k' =>
-                 let (kk, s) := draw s (Z.of_nat n) in
-                 let '(tv, s) := helper f isb (Z.to_nat kk) s in
-                 let '(rest, s) := go k' s in
-                 (tv :: rest, s)
-               end) l s in
-          let vals := map snd children in
-          let op :=
-            if isb then nth_name ["and"; "or"; "eq"]%string (r mod 3)
-            else if existsb (fun v => match v with VInt 0 => true | _ => false end) (tl vals)
-                 then nth_name ["+"; "-"; "*"]%string (r mod 3)
-                 else nth_name ["+"; "-"; "*"; "/"; "%"]%string (r mod 5) in
-          ((TOp op false (map fst children), exec op vals), s)
+          let '(chs, s) := children (helper f isb) n l s in
+          let vals := map snd chs in
+          let op := pick_op isb r vals in
+          ((TOp op false (map fst chs), exec op vals), s)
       end
     end.
 
